@@ -26,6 +26,8 @@ def run(rep, idx, tier):
     rep.require("C07.8", 1)
     rep.require("C07.9", 1)
     glue.map_parameters(rep, "C07.9", idx, "wishbone/bus:Decoder", [("alignment", "alignment")])
+    rep.require("C07.10", 4)
+    glue.forwarded_parameters(rep, "C07.10", idx, ["wishbone/bus:Decoder"])
     glue.reset_discipline(rep, "C07.8", idx, ["wishbone/bus:Decoder"])
     c = get_ctx(idx, "wishbone:Decoder.elaborate")
     rep.analysed(c.fi.site)
